@@ -324,6 +324,29 @@ pub fn drive(args: &[String]) {
             }
         }
     }
+    // kinds that occur only as parameters of enumerants (FPFastMathMode, BuiltIn, LinkageType ...): every value / bit by name
+    {
+        let mut seenp: std::collections::HashSet<(String, u32)> = Default::default();
+        for (k, val, pk) in param_kind_sites(&g) {
+            let Some((op, idx)) = site_of_kind(&g, &k) else { continue };
+            if structural(op) { continue; }
+            for pv in sweep_values(&g, &pk) {
+                if !seenp.insert((pk.clone(), pv)) { continue; }
+                let mut forced = HashMap::new();
+                forced.insert(idx, val);
+                let mut c = Ctx::new();
+                FORCE_PARAM.with(|f| *f.borrow_mut() = Some((pk.clone(), pv)));
+                let i = gen.inst(op, &mut rng, &mut c, &Plan { optionals: Some(g.insts[&op].ops.iter().filter(|o| o.q == "ZeroOrOne").count()), variadic: Some(1), forced });
+                FORCE_PARAM.with(|f| *f.borrow_mut() = None);
+                if !c.decls.is_empty() { continue; }
+                batch.push(i);
+                if batch.len() >= 12 {
+                    let insts = skeleton(std::mem::take(&mut batch), &mut rng);
+                    if let Some(m) = load_insts(&mut out, &insts) { out.ev(disasm_event(&v, &m, "sweep")); }
+                }
+            }
+        }
+    }
     if !batch.is_empty() { let insts = skeleton(std::mem::take(&mut batch), &mut rng); if let Some(m) = load_insts(&mut out, &insts) { out.ev(disasm_event(&v, &m, "sweep")); } }
     // (c) OpConstant / OpSpecConstant / OpSwitch over every int / float width with boundary bit patterns; undeclared and non-numeric types
     let pats32 = [0xffu32, 0x80, 0xffff, 0x8000, 0x0001_0005, 0xffff_ff80, 0u32, 1, 0x7fff_ffff, 0x8000_0000, 0xffff_ffff, 0x3f80_0000, 0xbf80_0000, 0x0000_3c00, 0x7f80_0000, 0xff80_0000, 0x0000_0001, 0x8000_0000, 42];
